@@ -94,6 +94,12 @@ Emit == nops = MaxOps =>
 EmitOwn == nops = MaxOps =>
           PrintT(<<"REPLAY", ToJson([cfg |-> cfg, ops |-> [i \in 1..Len(hist) |-> OpJson(hist[i])],
                                      probes |-> SetToSeq({Compact(q) : q \in ProbesOwn(cfg, RulesIn(hist))})])>>)
+\* analyses (C19): histories that end in a fork (existing router + change-set)
+EmitFork == (nops = MaxOps /\ hist # <<>> /\ hist[Len(hist)].op = "fork") =>
+          PrintT(<<"REPLAY", ToJson([cfg |-> cfg, ops |-> [i \in 1..Len(hist) |-> OpJson(hist[i])],
+                                     probes |-> SetToSeq({Compact(q) : q \in ProbesOwn(cfg, RulesIn(hist))})])>>)
+\* nothing happens after the fork in those histories
+ForkLast == forked => hist[Len(hist)].op = "fork"
 UniverseBlob == PrintT(<<"UNIVERSE", ToJson([pool |-> PoolSeq, hdrs |-> Universe.hdrs])>>)
 ASSUME UniverseBlob
 =============================================================================
